@@ -173,7 +173,7 @@ class SpinnerDomain(DeferredDomain):
                 return [s]
             return swallow(self.apply(interp, later[0], list(later[1]), [], s.set("ev.timeout_ran", True), fr))
         if ev == "stop":
-            cur_stop = s.get("self._reactor.stop", REAL_STOP)
+            cur_stop = s.get("obj.reactor.stop", REAL_STOP)
             return swallow(self.apply(interp, cur_stop, [], [], s, fr))
         if ev == "raise":
             return [s.set("ev.reactor_raises", True)]
